@@ -44,7 +44,7 @@ static int cyclic;                                          /* the schedules are
 static int sched_wfd = -1, sched_rfd = -1;
 static long wcalls, rcalls, nsleep, rguard;
 static int spin_detected;
-static int inj_socket, inj_bind, inj_connect, inj_listen, inj_accept;
+static int inj_socket, inj_bind, inj_connect, inj_listen, inj_accept, inj_accept_errno, inj_dup;
 static int inj_close_fd = -1, inj_write_fd = -1, inj_write_errno;
 
 ssize_t __wrap_write(int fd, const void *buf, size_t n) {
@@ -80,9 +80,9 @@ int __wrap_socket(int a, int b, int c) { if (inj_socket) { inj_socket = 0; errno
 int __wrap_bind(int fd, const struct sockaddr *a, socklen_t l) { if (inj_bind) { inj_bind = 0; errno = EADDRINUSE; return -1; } return __real_bind(fd, a, l); }
 int __wrap_connect(int fd, const struct sockaddr *a, socklen_t l) { if (inj_connect) { inj_connect = 0; errno = ECONNREFUSED; return -1; } return __real_connect(fd, a, l); }
 int __wrap_listen(int fd, int n) { if (inj_listen) { inj_listen = 0; errno = EADDRINUSE; return -1; } return __real_listen(fd, n); }
-int __wrap_accept(int fd, struct sockaddr *a, socklen_t *l) { if (inj_accept) { inj_accept = 0; errno = EINTR; return -1; } return __real_accept(fd, a, l); }
+int __wrap_accept(int fd, struct sockaddr *a, socklen_t *l) { if (inj_accept) { inj_accept = 0; errno = inj_accept_errno ? inj_accept_errno : EINTR; return -1; } return __real_accept(fd, a, l); }
 int __wrap_close(int fd) { if (fd >= 0 && fd == inj_close_fd) { inj_close_fd = -1; errno = EINTR; return -1; } return __real_close(fd); }
-int __wrap_dup(int fd) { return __real_dup(fd); }
+int __wrap_dup(int fd) { if (inj_dup) { inj_dup = 0; errno = EMFILE; return -1; } return __real_dup(fd); }
 struct protoent *__wrap_getprotobyname(const char *name) { (void) name; return NULL; }
 struct servent *__wrap_getservbyname(const char *name, const char *proto) { (void) name; (void) proto; return NULL; }
 
@@ -118,7 +118,7 @@ static spif_socket_t mk_socket(int listener) {
     return s;
 }
 static void clear_inj(void) {
-    inj_socket = inj_bind = inj_connect = inj_listen = inj_accept = 0; inj_close_fd = inj_write_fd = -1;
+    inj_socket = inj_bind = inj_connect = inj_listen = inj_accept = inj_accept_errno = inj_dup = 0; inj_close_fd = inj_write_fd = -1;
     sched_wfd = sched_rfd = -1; wlen = rlen_ = 0; wpos = rpos = 0; cyclic = 0; wcalls = rcalls = nsleep = 0; rguard = 0; spin_detected = 0;
 }
 
@@ -164,7 +164,9 @@ static const char *do_xfer(const vh_step_t *st, vh_sb *ret, vh_sb *state) {
     S[0] = mk_socket(1); S[1] = mk_socket(0);
     if (!spif_socket_open(S[0])) return "xfer:listener_open_failed";
     if (!spif_socket_open(S[1])) return "xfer:client_open_failed";
+    if (vh_cur_sid & 1) { inj_accept = 1; inj_accept_errno = EAGAIN; }     /* every other transfer: accept() says EAGAIN once */
     S[2] = spif_socket_accept(S[0]);
+    inj_accept = 0;
     if (SPIF_SOCKET_ISNULL(S[2])) return "xfer:accept_failed";
 
     pay = (unsigned char *) malloc((size_t) L + 1);
@@ -244,7 +246,15 @@ static const char *observe(const vh_step_t *st, vh_sb *state) {
     for (i = 0; i < 4; i++) { if (i) sb_putc(state, ','); sb_bool(state, !SPIF_SOCKET_ISNULL(S[i])); }
     sb_puts(state, "],fd=[");
     for (i = 0; i < 4; i++) { if (i) sb_putc(state, ','); sb_bool(state, has[i]); }
-    sb_printf(state, "],nopen=%d,orph=%d,sk=[", nopen, orph);
+    sb_puts(state, "],nb=[");                 /* the objects' NBIO flags (the library's cache of the mode) */
+    for (i = 0; i < 4; i++) { if (i) sb_putc(state, ','); sb_bool(state, !SPIF_SOCKET_ISNULL(S[i]) && SPIF_SOCKET_FLAGS_IS_SET(S[i], SPIF_SOCKET_FLAGS_NBIO)); }
+    sb_printf(state, "],nopen=%d,orph=%d,rm=[", nopen, orph);      /* the real mode of each object's descriptor */
+    for (i = 0; i < 4; i++) {
+        int fl = has[i] ? fcntl(S[i]->fd, F_GETFL, 0) : 0;
+        if (i) sb_putc(state, ',');
+        sb_bool(state, has[i] && fl >= 0 && (fl & O_NONBLOCK));
+    }
+    sb_puts(state, "],sk=[");
     for (i = 0; i < 4; i++) {
         int rep = 0;
         if (has[i]) for (j = 0; j <= i; j++) if (has[j] && sb[j].st_ino == sb[i].st_ino && sb[j].st_dev == sb[i].st_dev) { rep = j + 1; break; }
@@ -279,6 +289,8 @@ static const char *vh_step(const vh_step_t *st, vh_sb *ret, vh_sb *state) {
     } else if (OP("accept")) {
         out = st->args[0];
         if (!strcmp(out, "eintr")) inj_accept = 1;
+        else if (!strcmp(out, "eagain")) { inj_accept = 1; inj_accept_errno = EAGAIN; }
+        else if (!strcmp(out, "dupfail")) inj_dup = 1;
         S[2] = spif_socket_accept(S[0]);
         sb_bool(ret, !SPIF_SOCKET_ISNULL(S[2]));
     } else if (OP("send")) {
@@ -292,12 +304,20 @@ static const char *vh_step(const vh_step_t *st, vh_sb *ret, vh_sb *state) {
         r = spif_socket_send(S[x], d);
         spif_str_del(d);
         sb_bool(ret, r);
-    } else if (OP("recv")) {
-        spif_str_t g; long k = -1;
+    } else if (OP("set_nbio") || OP("clear_nbio")) {
         x = slot_of(st->args[0]);
-        if (S[x]->fd >= 0) spif_socket_set_nbio(S[x]);
+        sb_bool(ret, OP("set_nbio") ? spif_socket_set_nbio(S[x]) : spif_socket_clear_nbio(S[x]));
+    } else if (OP("recv") || OP("recvt")) {
+        spif_str_t g; long k = -1; int toggle = OP("recvt");        /* recvt: set_nbio ; recv ; clear_nbio */
+        x = slot_of(st->args[0]);
+        if (toggle && S[x]->fd >= 0) spif_socket_set_nbio(S[x]);
+        if (S[x]->fd >= 0) {
+            int fl = fcntl(S[x]->fd, F_GETFL, 0);
+            if (fl >= 0 && !(fl & O_NONBLOCK)) return "recv:descriptor_is_in_blocking_mode_although_non-blocking_was_set";   /* would block for ever */
+        }
+        errno = EINTR;
         g = spif_socket_recv(S[x]);
-        if (S[x]->fd >= 0) spif_socket_clear_nbio(S[x]);
+        if (toggle && S[x]->fd >= 0) spif_socket_clear_nbio(S[x]);
         if (!SPIF_STR_ISNULL(g)) {
             long n = (long) g->len, i, last = 0; const unsigned char *p = (const unsigned char *) SPIF_STR_STR(g);
             const char *bad = NULL;
@@ -319,6 +339,7 @@ static const char *vh_step(const vh_step_t *st, vh_sb *ret, vh_sb *state) {
         sb_bool(ret, spif_socket_close(S[x]));
     } else if (OP("dup")) {
         x = slot_of(st->args[0]);
+        if (st->nargs > 1 && !strcmp(st->args[1], "fail")) inj_dup = 1;
         S[3] = spif_socket_dup(S[x]);
         if (SPIF_SOCKET_ISNULL(S[3])) return "dup=NULL";
         if (S[3] == S[x]) return "dup_returned_same_object";
